@@ -270,9 +270,12 @@ class StmtMixin:
     def find_loop_spec(self, node, fr) -> LoopSpec | None:
         key, text = self.loop_key(node, fr)
         c = fr.contract
-        if c is None:
-            return None
-        return c.loops.get(key)
+        if c is not None and key in c.loops:
+            return c.loops[key]
+        top = getattr(self, "top_contract", None)
+        if top is not None and c is not top:
+            return top.loops.get(key)      # loops of inlined callees may be specified by the function under verification
+        return None
 
     def st_For(self, node, fr):
         spec = self.find_loop_spec(node, fr)
@@ -553,7 +556,20 @@ class StmtMixin:
                 d = src.meta[1] if (src.meta and src.meta[0] == "lazyiter") else self.iterable(src, nf)
                 j = z3.Int(st.fresh_name("q"))
                 bound.append(j)
-                if d[0] == "range":
+                if d[0] == "dictitems" and d[1] in ("keys", "items") and src.term is not None or \
+                        (d[0] == "dictitems" and d[1] in ("keys", "items") and src.meta and src.meta[0] == "dictview"):
+                    # quantify over the KEYS themselves (membership), not over positions in the iteration order
+                    dsv = src if src.term is not None else src.meta[2]
+                    kv = z3.Const(st.fresh_name("qk"), Val)
+                    bound[-1] = kv
+                    guards.append(H.dict_has(st, H.rid(dsv), kv))
+                    guards.append(self.type_pred(kv, d[4], nf))
+                    ksv = SV(kv, d[4])
+                    if d[1] == "keys":
+                        self.assign(gen.target, ksv, nf)
+                    else:
+                        self.assign(gen.target, self.mk_tuple_pure([ksv, SV(z3.Select(d[3], kv), d[5])]), nf)
+                elif d[0] == "range":
                     guards.append(z3.And(z3.simplify(d[1]) <= j, j < z3.simplify(d[2])))
                     self.assign(gen.target, SV(mk_int(j), Ty("int")), nf)
                 else:
